@@ -321,4 +321,62 @@ theorem batcherNew_spec (lens : List Nat) (b : Int) :
     · intro h; cases h
     · rintro ⟨h', _⟩; exact absurd h' h
 
+/-! ### BatcherIter on a tuple of two iterables -/
+
+theorem batcherIterPairGo_eq (b : Nat) (zs : List (Int × Int)) : ∀ a1 a2 : List Int, a1.length = a2.length →
+    batcherIterPairGo b a1 a2 zs =
+      (batcherIterGo b a1 (zs.map Prod.fst)).zip (batcherIterGo b a2 (zs.map Prod.snd)) := by
+  induction zs with
+  | nil =>
+    intro a1 a2 h
+    simp only [batcherIterPairGo, batcherIterGo, List.map_nil, ← h]
+    split <;> simp
+  | cons z r ih =>
+    intro a1 a2 h
+    obtain ⟨x, y⟩ := z
+    have h' : (a1 ++ [x]).length = (a2 ++ [y]).length := by simp [h]
+    simp only [batcherIterPairGo, batcherIterGo, List.map_cons, ← h']
+    split
+    · rw [ih [] [] rfl, List.zip_cons_cons]
+    · rw [ih _ _ h']
+
+theorem map_fst_zip_take : ∀ (xs ys : List Int),
+    (xs.zip ys).map Prod.fst = xs.take (min xs.length ys.length)
+  | [], _ => by simp
+  | _ :: _, [] => by simp
+  | x :: xs, y :: ys => by
+    simp only [List.zip_cons_cons, List.map_cons, List.length_cons, Nat.add_min_add_right, List.take_succ_cons,
+      map_fst_zip_take xs ys]
+
+theorem map_snd_zip_take : ∀ (xs ys : List Int),
+    (xs.zip ys).map Prod.snd = ys.take (min xs.length ys.length)
+  | [], _ => by simp
+  | _ :: _, [] => by simp
+  | x :: xs, y :: ys => by
+    simp only [List.zip_cons_cons, List.map_cons, List.length_cons, Nat.add_min_add_right, List.take_succ_cons,
+      map_snd_zip_take xs ys]
+
+/-- a tuple of two iterables is batched in lock-step and stops with the shorter one: the batches are exactly the batches of the
+two inputs cut to the common length, paired up -/
+theorem batcherIterPair_spec (xs ys : List Int) (b : Nat) (hb : 0 < b) :
+    batcherIterPair xs ys b =
+      (batcherIter (xs.take (min xs.length ys.length)) b).zip (batcherIter (ys.take (min xs.length ys.length)) b) := by
+  have _ := hb  -- the identity holds for every `b`; the hypothesis is kept because the statement is fixed
+  unfold batcherIterPair batcherIter
+  rw [batcherIterPairGo_eq b (xs.zip ys) [] [] rfl, map_fst_zip_take, map_snd_zip_take]
+
+/-- … and the two batch lists have the same shape (so nothing is lost by the `zip` above) -/
+theorem batcherIterPair_shape (xs ys : List Int) (b : Nat) (hb : 0 < b) :
+    (batcherIter (xs.take (min xs.length ys.length)) b).map List.length =
+      (batcherIter (ys.take (min xs.length ys.length)) b).map List.length := by
+  rw [batcherIter_eq _ _ hb, batcherIter_eq _ _ hb]
+  have hx : (xs.take (min xs.length ys.length)).length = min xs.length ys.length := by
+    rw [List.length_take]; omega
+  have hy : (ys.take (min xs.length ys.length)).length = min xs.length ys.length := by
+    rw [List.length_take]; omega
+  rw [hx, hy, List.map_map, List.map_map]
+  apply List.map_congr_left
+  intro i _
+  simp only [Function.comp, batchAt, List.length_take, List.length_drop, hx, hy]
+
 end WindVerif.Generic
